@@ -965,3 +965,25 @@ func structOf(t types.Type) *types.Struct {
 	st, _ := t.Underlying().(*types.Struct)
 	return st
 }
+
+// resolveValue follows conversions, free-variable bindings and loads of local
+// cells that have exactly one store, to the value originally bound.
+func resolveValue(v ssa.Value) ssa.Value {
+	for i := 0; i < 20; i++ {
+		v = resolveFreeVar(stripConv(v))
+		u, ok := v.(*ssa.UnOp)
+		if !ok || u.Op != token.MUL {
+			return v
+		}
+		a, ok := resolveFreeVar(u.X).(*ssa.Alloc)
+		if !ok {
+			return v
+		}
+		st := storesToDeep(a)
+		if len(st) != 1 {
+			return v
+		}
+		v = st[0]
+	}
+	return v
+}
